@@ -56,10 +56,12 @@ def P(name, typ=None, default=NODEF):
 
 
 def C(name, params=(), kind='plain', bases=(), abstract=False, extra=False,
+      pyname=None,
       members=(), rejects=(), recog=None, sav=None, swe=None,
       init_raises=False, attrs_private=False, ydefaults=()):
     return {
-        'name': name, 'kind': kind, 'bases': list(bases),
+        'name': name, 'pyname': pyname or name, 'kind': kind,
+        'bases': list(bases),
         'abstract': bool(abstract),
         'absflavor': abstract if isinstance(abstract, str) else '',
         'extra': extra,
@@ -145,7 +147,7 @@ def models():
            sav=['dashes_to_unders'])
     ms.append(M('dashed_sav', [ds], [K('Ds')],
                 keys=['my_attr', 'my-attr', 'o_p', 'o-p'],
-                scalars=[S_42, S_ABC]))
+                scalars=[S_42, S_ABC], an=5, aliask=('q', 'm')))
     # ---- enums and string-likes --------------------------------------------
     col = C('Col', kind='enum', members=['red', 'blue', 'true'])
     sl = C('Sl', kind='strlike', rejects=['abc'])
@@ -199,17 +201,22 @@ def models():
     # ---- parsed class: scalar_to_mapping recipe ----------------------------
     pa = C('Pa', [P('txt', STR)], recog=['require_scalar_str'],
            sav=['scalar_to_mapping', 'txt'])
-    ms.append(M('parsed', [pa], [K('Pa'), L(K('Pa')), U(K('Pa'), INT)],
-                keys=['txt'], scalars=[S_ABC, S_42], rtypes=[]))
+    hp = C('Hp', [P('s', STR), P('p', K('Pa'))])
+    ms.append(M('parsed', [pa, hp], [K('Pa'), L(K('Pa')), U(K('Pa'), INT),
+                                     K('Hp')],
+                keys=['txt', 's', 'p'], scalars=[S_ABC, S_42], rtypes=[],
+                an=5))
     # ---- custom discriminators ---------------------------------------------
     an = C('An', [P('kind', STR), P('v', INT)], abstract=True)
     ca = C('Ca', [P('kind', STR), P('v', INT)], bases=['An'],
            recog=['require_value', 'kind', 'str', 'red'])
     cb = C('Cb', [P('kind', STR), P('v', INT)], bases=['An'],
            recog=['require_value', 'kind', 'str', 'blue'])
-    ms.append(M('discrim', [an, ca, cb], [K('An'), L(K('An'))],
-                keys=['kind', 'v'], scalars=[S_RED, S_BLUE, S_42],
-                mtags=('map', '!Ca', '!Cb'), rtypes=[]))
+    ce = C('Ce', [P('n', INT), P('v', INT, ['int', '0'])],
+           recog=['require_value', 'n', 'int', '42'])
+    ms.append(M('discrim', [an, ca, cb, ce], [K('An'), L(K('An')), K('Ce')],
+                keys=['kind', 'v', 'n'], scalars=[S_42, S_RED, S_BLUE],
+                stags=['int'], mtags=('map', '!Ca', '!Cb'), rtypes=[]))
     # ---- ambiguity: two indistinguishable subclasses -----------------------
     am = C('Am', [P('a', INT)])
     a1 = C('A1', [P('a', INT)], bases=['Am'])
@@ -299,6 +306,53 @@ def models():
                 keys=['a', 'b', 'd', 'i', 'l', 'o', 'c'],
                 scalars=[S_42, S_ABC, S_RED], strs=['abc'], qn=1, tn=1,
                 qo=11, to=13))
+
+    # ---- recogniser inherited by subclasses that rely on auto-recognition ----
+    br = C('Br', [P('kind', STR), P('v', INT)], recog=['require_attr', 'kind'])
+    r1 = C('R1', [P('kind', STR), P('v', INT), P('a', INT)], bases=['Br'])
+    r2 = C('R2', [P('kind', STR), P('v', INT), P('b', INT)], bases=['Br'])
+    ms.append(M('inhrec', [br, r1, r2], [K('Br')],
+                keys=['kind', 'v', 'a', 'b'], scalars=[S_42, S_ABC],
+                mtags=('map',), qn=7, tn=7, rootk='m',
+                nodup=True, rtypes=[]))
+    # ---- a derived class named like its unregistered base --------------------
+    dob = C('DocB', [P('a', INT)], pyname='Doc', sav=['rename', 'aa', 'a'],
+            swe=['none'])
+    doc = C('Doc', [P('a', INT), P('b', INT, ['int', '0'])], bases=['DocB'],
+            recog=['require_mapping'], sav=['none'], swe=['none'])
+    ms.append(M('samename', [dob, doc], [K('Doc'), L(K('Doc'))],
+                reg=['Doc'], keys=['a', 'aa', 'b'], scalars=[S_42],
+                qn=5, tn=5, rtypes=[]))
+    # ---- lists and dicts of scalars as attributes -----------------------------
+    li = C('Li', [P('v', L(INT)), P('w', D(INT), ['null'])])
+    ms.append(M('lists', [li], [K('Li')], keys=['v', 'w', 'abc'],
+                scalars=[S_42, S_ABC], strs=['abc'], qn=5, tn=6, qo=7, to=8))
+    # ---- sweeten that sets an attribute to None --------------------------------
+    nu = C('Nu', [P('a', INT)], swe=['set_attr', 'u', 'null', ''])
+    ms.append(M('nullswe', [nu], [K('Nu'), L(K('Nu'))], keys=['a', 'u'],
+                scalars=[S_42], qn=3, tn=3, rtypes=[]))
+
+    # ---- merge keys: below Any they are resolved, elsewhere they are not keys --
+    S_MERGE = ['merge', '<<']
+    ms.append(M('merge', [], [ANY, D(ANY), D(INT)], keys=['a', 'b'],
+                oddkeys=[S_MERGE], scalars=[S_42], qn=6, tn=7, rootk='m',
+                rtypes=[]))
+    mg = C('Mg', [P('x', INT), P('y', INT, ['int', '0'])])
+    ms.append(M('mergecls', [mg], [K('Mg')], keys=['x', 'y'],
+                oddkeys=[S_MERGE], scalars=[S_42, S_TRUE], qn=7, tn=7,
+                rootk='m', nodup=True, rtypes=[]))
+
+    # ---- a cycle below an extra attribute ---------------------------------------
+    xe = C('Xe', [P('a', INT)], extra=True)
+    ms.append(M('extracyc', [xe], [K('Xe')], keys=['a', 'q'], scalars=[S_42],
+                qn=3, tn=3, an=6, rootk='m', nodup=True, aliask=('q', 'm'),
+                rtypes=[]))
+
+    # ---- a dict attribute whose key class is not derived from str --------------
+    u2 = C('U2', kind='userstring')
+    h2 = C('H2', [P('m', D(INT, K('U2')))])
+    ms.append(M('dictkey', [u2, h2], [K('H2')], keys=['m', 'abc'],
+                scalars=[S_42], qn=5, tn=6, rootk='m', nodup=True))
     # ---- dump / round-trip families ----------------------------------------
     ms.append(M('strings', [], [STR, ANY, PATH], keys=['abc'], scalars=[S_ABC],
                 family='dump', qn=1, tn=1))
